@@ -74,6 +74,22 @@ class Ctx:
     def note(self, s):
         self.notes.append(s)
 
+    def own_of(self, modname):
+        """obligations of another property's rule module (its own rules only, not what it shares in turn), computed
+        once per fact base; empty when this context is itself being computed for sharing (no mutual recursion)"""
+        if getattr(self, "no_share", False):
+            return []
+        cache = self.facts.__dict__.setdefault("_own_obligations", {})
+        if modname not in cache:
+            sub = Ctx(self.prop, self.facts, self.tier, self.config)
+            sub.no_share = True
+            try:
+                importlib.import_module(modname).run(sub)
+            except AnchorMissing as ex:
+                sub.bad("ANCHOR", "missing|%s" % ex, "an anchor the rules rely on is missing (fail closed)", detail=str(ex))
+            cache[modname] = sub.obligations
+        return cache[modname]
+
     def touch(self, fn):
         self.analysed["functions"].add(fn.name if hasattr(fn, "name") else fn)
 
